@@ -1,0 +1,56 @@
+//go:build verif
+
+package ot
+
+// Contracts for the deductive checker in /verif (comment-only; compiled only under the verif tag).
+
+//@ func PackedBits.Get
+//@   property C09
+//@   nopanic
+//@   requires i / 8 < len(pb)
+//@   ensures result == bit(pb[i/8], i % 8)
+
+//@ func PackedBits.Set
+//@   property C09
+//@   nopanic
+//@   requires i / 8 < len(pb)
+//@   ensures len(pb) == old(len(pb))
+//@   ensures forall k int :: 0 <= k && k < len(pb) ==> pb[k] == ite(k == i/8, old(pb)[k] | pow2(i%8), old(pb)[k])
+
+//@ func PackedBits.Clear
+//@   property C09
+//@   nopanic
+//@   requires i / 8 < len(pb)
+//@   ensures len(pb) == old(len(pb))
+//@   ensures forall k int :: 0 <= k && k < len(pb) ==> pb[k] == ite(k == i/8, old(pb)[k] &^ pow2(i%8), old(pb)[k])
+
+//@ lemma BitOfOr8: forall x, s, t int :: 0 <= x && x < 256 && 0 <= s && s < 8 && 0 <= t && t < 8 ==> bit(or8(x, pow2(s)), t) == ite(t == s, 1, bit(x, t))
+//@   property C09
+//@   cases s 0 7, t 0 7
+//@ lemma BitOfAndNot8: forall x, s, t int :: 0 <= x && x < 256 && 0 <= s && s < 8 && 0 <= t && t < 8 ==> bit(andnot8(x, pow2(s)), t) == ite(t == s, 0, bit(x, t))
+//@   property C09
+//@   cases s 0 7, t 0 7
+
+//@ func PackedBits.BitLen
+//@   property C09
+//@   ensures result == len(pb) * 8
+
+//@ func Pack
+//@   property C09
+//@   nopanic
+//@   ensures err == nil ==> len(result) == (len(unpackedBits)+7)/8
+//@   ensures err == nil ==> forall j int :: 0 <= j && j < len(unpackedBits) ==> unpackedBits[j] <= 1
+//@   ensures (forall j int :: 0 <= j && j < len(unpackedBits) ==> unpackedBits[j] <= 1) ==> err == nil
+//@   loop range(unpackedBits)
+//@     invariant len(vOut) == (len(unpackedBits)+7)/8
+//@     invariant 0 <= isNonBinary && isNonBinary < 256
+//@     invariant (isNonBinary / 2 == 0) == (forall j int :: 0 <= j && j < i ==> unpackedBits[j] <= 1)
+
+//@ func PackedBits.Unpack
+//@   property C09
+//@   nopanic
+//@   ensures len(result) == len(pb) * 8
+//@   ensures forall j int :: 0 <= j && j < len(result) ==> result[j] == bit(pb[j/8], j%8)
+//@   loop range(pb.BitLen())
+//@     invariant len(vOut) == len(pb) * 8
+//@     invariant forall j int :: 0 <= j && j < i ==> vOut[j] == bit(pb[j/8], j%8)
